@@ -94,10 +94,10 @@ TName(g) == CASE g.k = "B" -> "B(" \o TNames(g.parts, 1) \o ")"
               [] g.k \in {"R", "SEK3"} -> g.k \o ToString(g.n)
               [] OTHER -> g.k
 
-Mutators == {"assign", "massign", "mul", "amul", "bmul", "copyctor", "plus", "setid", "subassign", "subsetid", "submul"}
+Mutators == {"assign", "massign", "mul", "amul", "bmul", "copyctor", "partsctor", "plus", "setid", "subassign", "subsetid", "submul"}
 Observers == {"cast", "const", "const2", "subconst"}
 SubOps == {"subassign", "subsetid", "submul", "subconst"}
-CopyOps == {"assign", "massign", "copyctor"}
+CopyOps == {"assign", "massign", "copyctor", "partsctor"}     \* partsctor: G(part_1, ..., part_m), parts in layout order
 
 HasView(v) == v.k # "none"
 \* geometry of an init event, re-derived: buffer length, view positions, value objects behind the buffer
@@ -214,7 +214,7 @@ Key(e) ==
   ELSE e.op \o "|" \o TName(e.g) \o "/" \o e.sc \o "|" \o e.d.k \o "<" \o e.s.k \o (IF HasView(e.o) THEN "," \o e.o.k ELSE "")
        \o "|" \o (IF HasView(e.d) /\ HasView(e.s) THEN Rel(e.d, e.s, RepSize(e.g))
                   ELSE IF HasView(e.o) /\ HasView(e.s) THEN Rel(e.s, e.o, RepSize(e.g)) ELSE "-")
-       \o "|" \o e.i
+       \o "|" \o (IF e.op = "partsctor" THEN e.x ELSE e.i)
 Stratum(e) == IF e.op \in {"init", "fin"} THEN "-" ELSE (IF HasView(e.d) THEN e.d.v ELSE e.s.v) \o (IF e.op \in SubOps THEN ":" \o e.i ELSE "")
 
 ---------------------------------------------------------------------------
